@@ -202,6 +202,11 @@ FIRST_RUN_MISSED = {  # seeded changes the checks did NOT catch when first confr
     "C18-24": "no default namespace (key None) in compared trees; this also exposed F24 (a default namespace does not survive JSON) in the unchanged code",
     "C19-23": "NOT DETECTED BY DESIGN: an abstract that is present but has no words (only white space / empty paras) - the oracle accepts either DATASET_ABSTRACT_MISSING or DATASET_ABSTRACT_TOO_SHORT there, the statement does not say which",
     "C19-24": "descriptions only occurred under four of the eight parents the evaluator distinguishes; every parent name x every form of description is evaluated now",
+    "C12-26": "the attached copy was only re-bound, never had a prefix removed; remove_namespace on either of the two attached nodes was added",
+    "C16-26": "no references element without a value (None / '') in the dangling menu",
+    "C18-26": "every compared tree had parent back-references on all children and no subtree listed under two parents",
+    "C20-25": "the oracle accepted any white space where blank text was expected (the output is indented); a childless element's blank text must now come back empty",
+    "C20-26": "no text coming from a general entity declared in the document's internal subset",
 }
 NOT_DETECTED_BY_DESIGN = {"C19-5", "C09-8", "C19-23"}
 ids = sys.argv[1:] or sorted(os.listdir(os.path.join(HERE, "seeded")))
